@@ -783,7 +783,7 @@ def gen_residue(rng):
     table must be empty again each time and the ports must not run out."""
     n = 2
     lo = 50000
-    cfg = base_cfg(rng, n, cap=3, eph=[lo, lo + rng.choice([2, 3, 4])])
+    cfg = base_cfg(rng, n, cap=4, eph=[lo, lo + rng.choice([3, 4, 5])])
     sc = Script(cfg)
     held = rng.random() < 0.5
     if held:
@@ -811,7 +811,15 @@ def gen_residue(rng):
                 sc.ctl(t + 2, ["deliver", 0, 1, 0])
         sc.cmd(t + 2, 0, ["count"])
         sc.cmd(t + 2, 1, ["accept", 1, 100 + ci])
-        t += 3
+        # whatever did get established is closed again, so that the tiny port range never runs out
+        sc.cmd(t + 2, 0, ["drop", ci])
+        sc.cmd(t + 3, 1, ["drop", 100 + ci])
+        sc.cmd(t + 3, 0, ["poll", ci])
+        sc.cmd(t + 3, 0, ["drop", ci])
+        if held:
+            sc.ctl(t + 3, ["deliver", 0, 1, 0])
+            sc.ctl(t + 3, ["deliver", 0, 1, 1])
+        t += 4
     sc.cmd(t, 0, ["count"])
     sc.cmd(t, 1, ["count"])
     return normalise({"cfg": cfg, "steps": sc.steps, "flavour": "residue"})
